@@ -128,7 +128,7 @@ def child_env(stage_dir: str, kind: str, extra: dict | None = None) -> dict:
     if kind.startswith("asan"):
         env["LD_PRELOAD"] = asan_runtime()
         env["PYTHONMALLOC"] = "malloc"
-        opts = "detect_leaks=0:allocator_may_return_null=1:handle_segv=1"
+        opts = "detect_leaks=0:allocator_may_return_null=1:handle_segv=1:quarantine_size_mb=1:thread_local_quarantine_size_kb=16:malloc_context_size=0:suppress_equal_pcs=0"
         if kind == "asan-halt":
             opts += ":halt_on_error=1:abort_on_error=1"
         else:
